@@ -411,4 +411,12 @@ example : rebuildPass (fun x => if x = 2 then 1 else x) [(10, [1, 3]), (11, [2, 
     = ([(10, [1, 3]), (12, [3])], [(11, 10)]) := by decide
 example : (rebuildPass id [(10, [1, 3]), (11, [2, 3])]).2 = [] := by decide
 
+/-- non-vacuity of the `register_val` theorems: two registrations from the empty table -/
+example : lookupVal (intern (intern [] 0 [1]).1 1 [2]).1 [2] = some 1 ∧
+    lookupVal (intern (intern [] 0 [1]).1 1 [2]).1 [1] = some 0 := by decide
+example : IdsFresh (intern [] 0 [1]).1 (intern [] 0 [1]).2.1 :=
+  C14_intern_ids [] 0 [1] ⟨List.Pairwise.nil, fun e he => by cases he⟩
+/-- non-vacuity of `C14_rebuild_stable`: a canonical table and a `find` that moves other ids -/
+example : rebuildPass (fun x => if x = 9 then 1 else x) [(10, [1, 3]), (11, [2, 3])] = ([(10, [1, 3]), (11, [2, 3])], []) := by decide
+
 end EgglogVerif.Intern
